@@ -21,6 +21,9 @@ import CtyModel.Lemmas.d18Cval
 import CtyModel.Lemmas.d18ToCty
 import CtyModel.Generated.IntBounds
 import CtyModel.Lemmas.GoctyFnsTie
+import CtyModel.Lemmas.d18bShape
+import CtyModel.Lemmas.d18bShapeTie
+import CtyModel.Lemmas.d18bFloat32
 namespace CtyModel
 namespace C18
 open Gocty
@@ -852,6 +855,264 @@ example : Generated.GoctyFns.fromCtyNumber ⟨.number, .n (Num.ofInt 128)⟩ (.i
 example : Generated.GoctyFns.fromCtyNumber ⟨.number, .n (Num.mk false 3 (-1) 64)⟩ (.int .w64 false) (.int 0) =
     .err "value must be a whole number, between 0 and %d inclusive" := by rfl
 example (tv : GoVal) : ∃ c, Generated.GoctyFns.fromCtyNumber ⟨.number, .n (Num.ofInt 1)⟩ (.slice .str) tv = .err c := ⟨_, rfl⟩
+
+/-! ## Second deepening (slice d18b)
+
+Three predicates of the harness that caught seeded changes now have statements (on the hand-written model diffed
+against /repo), and the STRUCTURE of `fromCtyValue` and of the collection decoders is regenerated from the source:
+`Generated.GoctyShapeFns.fromCtyValue / fromCtyList / fromCtySet / fromCtyMap / fromCtyTuple / fromCtyObject` are the
+translated text of cty/gocty/out.go — the `cty.Value` passthrough, the null and unknown guards, the dispatch on the type kind,
+the kind dispatch of every decoder, their null guards, `length != target.Len()`, the tuple's field count and positional loop.
+The recursive call is a parameter (`D18bTie.recS S` = the model itself: open recursion), `fromCtyPopulatePtr` is given API
+(`populateTy` / `populateLift`), the five `ForEachElement` closures and the two Go-map loops of `fromCtyObject` are PINNED
+REGIONS (their text is compared on every run and their meaning written in the model's vocabulary), `fromCtyCapsule` is not
+translated (capsules are outside the model). -/
+
+/-- "shape mismatches … return an error", arrays, for EVERY length: a list or a set is decoded into a Go array `[n]E`
+(behind any pointers) only if it has exactly `n` members, and every other length is refused with an error whatever the
+members are (the predicate that caught seeded/C18-array-decode-empty-collection-early-return). -/
+theorem array_length_rule (S : Sched) (ety : Ty) (ids : List Int) (cs : List Payload) (T : GoTy) (n : Nat) (E : GoTy)
+    (hT : T.base = .array n E) :
+    (∀ g, fromCtyS S ⟨.list ety, .seq cs⟩ T = .ok g → cs.length = n) ∧
+    (∀ g, fromCtyS S ⟨.set ety, .sset ids cs⟩ T = .ok g → cs.length = n) ∧
+    (cs.length ≠ n → (∃ c, fromCtyS S ⟨.list ety, .seq cs⟩ T = .err c) ∧ (∃ c, fromCtyS S ⟨.set ety, .sset ids cs⟩ T = .err c)) :=
+  ⟨fun g h => ((fromCtyP_list_array_ok_iff S ety cs T n E hT g).mp h).1,
+   fun g h => fromCtyP_set_array_ok_len S ety ids cs T n E hT g h,
+   fun hl => ⟨fromCtyP_list_array_len_err S ety cs T n E hT hl, fromCtyP_set_array_len_err S ety ids cs T n E hT hl⟩⟩
+
+/-- … in particular an empty list or set decodes into an array only of length 0 (and then stores the empty array) -/
+theorem empty_into_array_iff (S : Sched) (ety : Ty) (T : GoTy) (n : Nat) (E : GoTy) (hT : T.base = .array n E) :
+    ((∃ g, fromCtyS S ⟨.list ety, .seq []⟩ T = .ok g) ↔ n = 0) ∧
+    ((∃ g, fromCtyS S ⟨.set ety, .sset [] []⟩ T = .ok g) ↔ n = 0) ∧
+    (n = 0 → fromCtyS S ⟨.list ety, .seq []⟩ T = .ok (wrapPtr T.depth (.arr [])) ∧
+             fromCtyS S ⟨.set ety, .sset [] []⟩ T = .ok (wrapPtr T.depth (.arr []))) := by
+  have hl := fromCtyP_empty_list_array S ety T n E hT
+  have hs := fromCtyP_empty_set_array S ety T n E hT
+  refine ⟨⟨fun ⟨g, h⟩ => ?_, fun h0 => ⟨_, hl.1 h0⟩⟩, ⟨fun ⟨g, h⟩ => ?_, fun h0 => ⟨_, hs.1 h0⟩⟩, fun h0 => ⟨hl.1 h0, hs.1 h0⟩⟩
+  · by_cases h0 : n = 0
+    · exact h0
+    · obtain ⟨c, hc⟩ := hl.2 h0
+      rw [fromCtyS] at h; rw [hc] at h; cases h
+  · by_cases h0 : n = 0
+    · exact h0
+    · obtain ⟨c, hc⟩ := hs.2 h0
+      rw [fromCtyS] at h; rw [hc] at h; cases h
+
+/-- "nil pointers … correspond to null", inside maps: a map decoded into `map[string]*E` (behind any pointers; `E` not
+`cty.Value`; element type not a list or map, whose null is a nil slice / map behind an allocated pointer) has exactly the
+keys of the cty map, and under the key of every null element a nil pointer — a null element is never a missing key
+(the predicate that caught seeded/C18-map-decode-null-pointer-element-dropped). -/
+theorem map_null_element_is_nil_member (S : Sched) (ety : Ty) (ks : List String) (cs : List Payload) (T : GoTy) (E : GoTy)
+    (hT : T.base = .map (.ptr E)) (hc : E.base.isCval = false) (hn : nullViaPtr ety = true) (g : GoVal)
+    (h : fromCtyS S ⟨.map ety, .smap ks cs⟩ T = .ok g) :
+    ∃ gs, g = wrapPtr T.depth (.map ks gs) ∧ gs.length = cs.length ∧
+      ∀ i : Nat, cs[i]? = some Payload.null → gs[i]? = some (wrapPtr E.depth .nilPtr) :=
+  fromCtyP_map_null_member S ety ks cs T E hT hc hn g h
+
+/-- "big numbers to the corresponding number type … exactly": `ToCtyValue` of a `big.Int` is the number `v` for EVERY
+magnitude — the number made has the integer value `v` and a precision that holds all its bits (`(&big.Float{}).SetInt`
+takes max(64, bit length), so nothing is rounded), at the top level or behind a pointer; and it decodes back into the same
+`big.Int` (the predicate that caught seeded/C18-bigint-newfloat-53-bit-precision). -/
+theorem bigInt_tocty_exact (S : Sched) (norm : String → String) (v : Int) :
+    ∃ x, toCty norm (.bigInt v) .number = .ok ⟨.number, .n x⟩ ∧ toCty norm (.ptr (.bigInt v)) .number = .ok ⟨.number, .n x⟩ ∧
+      IsTheInt x v ∧ normalNum x = true ∧
+      (∃ n m e p, x = .fin n m e p ∧ Num.bitlen v.natAbs ≤ p) ∧
+      fromCtyS S ⟨.number, .n x⟩ .bigInt = .ok (.bigInt v) := by
+  obtain ⟨h1, h2, h3⟩ := toCtyG_bigInt_exact norm true v
+  refine ⟨_, h1, ?_, h2, h3, ⟨_, _, _, _, rfl, bigInt_prec_suffices v⟩, ?_⟩
+  · simp only [toCty, toCtyG]
+  · exact (bigInt_ok_iff S _ h3 0 _).mpr ⟨v, h2, rfl⟩
+
+/-! ### float32: closed form through the float64 intermediate, and the double-rounding band
+
+`fromCtyNumberFloat` narrows in two steps: `fv := bf.Float64()`, then `float32(fv)`.  The refusal threshold therefore sits
+on the float64 INTERMEDIATE, and the stored value is the float32 nearest to that intermediate, not to the number. -/
+
+/-- Float32, closed form (was only searched): a finite number is refused by a float32 target exactly when it is refused by
+float64 (`|x| ≥ 2^1024 − 2^970`) or its float64 rounding `x.Float64()` has magnitude at least 2^128 − 2^103, the midpoint
+between the largest float32 and 2^128 (the tie going up) -/
+theorem float32_refused_iff (n : Bool) (m : Nat) (e : Int) (p : Nat) (hx : normalNum (.fin n m e p) = true) :
+    (∃ c, fromNum (.fin n m e p) (.float true) = .err c) ↔
+      (0 ≤ Num.cmp (Num.abs (.fin n m e p)) thr64 ∨ 0 ≤ Num.cmp (Num.abs (Num.toF64 (.fin n m e p)).1) thr32) := by
+  have h64 := float64_refused_iff n m e p hx
+  rw [float_refused_iff_inf _ false rfl] at h64
+  rw [float_refused_iff_inf _ true rfl]
+  simp only [Bool.false_eq_true, if_false, if_true] at h64 ⊢
+  have hn : normalNum (Num.toF64 (.fin n m e p)).1 = true := normal_toIEEE 52 (-1022) 1023 _
+  rw [f64to32_isInf_iff _ hn, h64]
+
+/-- … so on a number that IS a float64 (`Float64()` exact — every Go float that entered cty through `ToCtyValue`) the
+test is the float32 range test itself: refused iff `|x| ≥ 2^128 − 2^103`, and what is stored is the float32 nearest to `x` -/
+theorem float32_of_float64 (x f : Num) (hx : x.toF64.2 = true) (h : fromNum x (.float true) = .ok (.flt f)) :
+    f = (Num.toF32 x).1 := by
+  obtain ⟨f', h1, h2, _⟩ := (float_ok_iff x true (.flt f)).mp h
+  cases h1
+  simpa [f64to32_of_exact x hx] using h2
+
+/-- The full-strength reading of "stores that number" for float32 — the value stored is the float32 NEAREST to the number,
+what `bf.Float32()` returns — is false of the code for numbers of more than 53 significant bits: the DOUBLE-ROUNDING band. -/
+def Float32StoresNearest : Prop :=
+  ∀ (x f : Num), fromNum x (.float true) = .ok (.flt f) → f = (Num.toF32 x).1
+
+/-- it holds of every number that `Float64()` represents exactly (`float32_of_float64`) -/
+theorem float32StoresNearest_partial (x f : Num) (hx : x.toF64.2 = true) (h : fromNum x (.float true) = .ok (.flt f)) :
+    f = (Num.toF32 x).1 := float32_of_float64 x f hx h
+
+/-- witness: `1 + 2^-24 + 2^-60` (the decimal 1.000000059604644776 parsed by cty) lies just ABOVE the midpoint of the float32
+neighbours 1 and 1 + 2^-23; `Float64()` rounds it down onto the midpoint, `float32(…)` breaks the tie to even: 1 is stored,
+the nearest float32 is 1 + 2^-23 (replayed on /repo: FromCtyValue gives 8388608p-23, `Float32()` 8388609p-23) -/
+theorem float32StoresNearest_counterexample : ¬ Float32StoresNearest := by
+  intro h
+  have h1 : fromNum (.fin false (2 ^ 60 + 2 ^ 36 + 1) (-60) 512) (.float true) = .ok (.flt (.fin false 1 0 53)) := by rfl
+  have h2 := h _ _ h1
+  have h3 : (Num.toF32 (.fin false (2 ^ 60 + 2 ^ 36 + 1) (-60) 512)).1 = .fin false (2 ^ 23 + 1) (-23) 53 := by rfl
+  rw [h3] at h2
+  exact absurd h2 (by decide)
+
+/-- the refusal side of the band, evaluated: 2^128 − 2^103 − 2^74 rounds (to nearest) to the largest float32 and
+`Float32()` would return that, but `Float64()` rounds it up onto the threshold and it is REFUSED — a number beyond
+MaxFloat32, so the refusal is within the property; one unit below it is accepted and stored as MaxFloat32 -/
+theorem float32_band_witnesses :
+    let max32 : Num := .fin false (2 ^ 24 - 1) 104 53
+    (∃ c, fromNum (.fin false (2 ^ 54 - 2 ^ 29 - 1) 74 512) (.float true) = .err c) ∧
+    (Num.toF32 (.fin false (2 ^ 54 - 2 ^ 29 - 1) 74 512)).1 = max32 ∧
+    fromNum (.fin false (2 ^ 128 - 2 ^ 103 - 2 ^ 74 - 1) 0 512) (.float true) = .ok (.flt max32) := by
+  refine ⟨⟨_, rfl⟩, rfl, rfl⟩
+
+example : normalNum (.fin false (2 ^ 54 - 2 ^ 29 - 1) 74 512) = true ∧
+    0 ≤ Num.cmp (Num.abs (Num.toF64 (.fin false (2 ^ 54 - 2 ^ 29 - 1) 74 512)).1) thr32 := by decide
+example : (Num.toF64 (Num.ofInt 16777217)).2 = true := by rfl
+
+/-- `fromCtyList` as written in the source is the list case of the model of `fromCtyValue` (null, marks, slice and array
+targets, every other target kind refused), the recursive call being the model -/
+theorem generated_fromCtyList_eq (S : Sched) (ms : List String) (ety : Ty) (p : Payload) (T : GoTy) (tv : GoVal)
+    (hd : T.depth = 0) (hc : T.isCval = false) (hp : p = .null ∨ ∃ cs, p = .seq cs) :
+    GoctyFnsTie.er (Generated.GoctyShapeFns.fromCtyList (D18bTie.recS S) ⟨.list ety, pushMarks ms p⟩ T tv) =
+      GoctyFnsTie.er (fromCtyP S ms (.list ety) p T) :=
+  D18bTie.fromCtyList_tie S ms ety p T tv hd hc hp
+
+/-- `fromCtySet` as written in the source is the set case of the model -/
+theorem generated_fromCtySet_eq (S : Sched) (ms : List String) (ety : Ty) (ids : List Int) (cs : List Payload) (T : GoTy)
+    (tv : GoVal) (hd : T.depth = 0) (hc : T.isCval = false) :
+    GoctyFnsTie.er (Generated.GoctyShapeFns.fromCtySet (D18bTie.recS S) ⟨.set ety, pushMarks ms (.sset ids cs)⟩ T tv) =
+      GoctyFnsTie.er (fromCtyP S ms (.set ety) (.sset ids cs) T) :=
+  D18bTie.fromCtySet_tie S ms ety ids cs T tv hd hc
+
+/-- `fromCtyMap` as written in the source is the map case of the model -/
+theorem generated_fromCtyMap_eq (S : Sched) (ms : List String) (ety : Ty) (p : Payload) (T : GoTy) (tv : GoVal)
+    (hd : T.depth = 0) (hc : T.isCval = false) (hp : p = .null ∨ ∃ ks cs, p = .smap ks cs) :
+    GoctyFnsTie.er (Generated.GoctyShapeFns.fromCtyMap (D18bTie.recS S) ⟨.map ety, pushMarks ms p⟩ T tv) =
+      GoctyFnsTie.er (fromCtyP S ms (.map ety) p T) :=
+  D18bTie.fromCtyMap_tie S ms ety p T tv hd hc hp
+
+/-- `fromCtyTuple` as written in the source — field count, positional loop, `CanSet` — is the tuple case of the model,
+for an unmarked tuple into the zero value of every non-pointer target -/
+theorem generated_fromCtyTuple_eq (S : Sched) (etys : List Ty) (cs : List Payload) (T : GoTy)
+    (hd : T.depth = 0) (hc : T.isCval = false) (hwf : cs.length = etys.length) :
+    GoctyFnsTie.er (Generated.GoctyShapeFns.fromCtyTuple (D18bTie.recS S) ⟨.tuple etys, .seq cs⟩ T (zeroVal T)) =
+      GoctyFnsTie.er (fromCtyP S [] (.tuple etys) (.seq cs) T) :=
+  D18bTie.fromCtyTuple_tie S etys cs T hd hc hwf
+
+/-- `fromCtyObject` as written in the source is the object case of the model (unmarked object; `S 0` = the order in which
+Go visits this object's attributes, `S.next` the schedule below).  Only the dispatch on the target's kind and the composition
+"missing-attribute check, then the attribute loop" are translated here: the two loops range over Go maps and are PINNED
+REGIONS whose meaning is written in the model's own vocabulary (an edit inside them fails closed instead of failing a proof) -/
+theorem generated_fromCtyObject_eq (S : Sched) (names : List String) (atys : List Ty) (opt : List Bool) (cs : List Payload)
+    (T : GoTy) (hd : T.depth = 0) (hc : T.isCval = false) :
+    GoctyFnsTie.er (Generated.GoctyShapeFns.fromCtyObject (D18bTie.recS S.next) (S 0) ⟨.object names atys opt, .smap names cs⟩ T
+      (zeroVal T)) = GoctyFnsTie.er (fromCtyP S [] (.object names atys opt) (.smap names cs) T) :=
+  D18bTie.fromCtyObject_tie S names atys opt cs T hd hc
+
+/-- `fromCtyValue` as written in the source — with the translated decoders it dispatches to — is the model of `FromCtyValue`
+on every known, non-null, kind-correct value without a mark at the top, into every target whose pointee is not `cty.Value`
+(at any pointer depth); the recursive calls are the model itself (`recFor`: an object hands the next schedule down) -/
+theorem generated_fromCtyValue_eq (S : Sched) (ty : Ty) (p : Payload) (T : GoTy) (tv : GoVal)
+    (hc : T.base.isCval = false) (hk : kindOK ty p = true)
+    (hwf : ∀ etys cs, ty = .tuple etys → p = .seq cs → cs.length = etys.length) :
+    GoctyFnsTie.er (Generated.GoctyShapeFns.fromCtyValue (D18bTie.recFor S ty) (S 0) ⟨ty, p⟩ T tv) =
+      GoctyFnsTie.er (fromCtyP S [] ty p T) :=
+  D18bTie.fromCtyValue_tie S ty p T tv hc hk hwf
+
+/-- … and with marks: the value carries the marks `ms` (its own or pushed down from its containers).  A marked scalar, list,
+set or map panics in the accessor its decoder calls first, a marked tuple or object hands its marks to the members
+(`val.Index` / `val.GetAttr`) — in the translated source exactly as in the model (`marked_can_panic`,
+`schedule_matters_marked_counterexample` are therefore statements about the source text too) -/
+theorem generated_fromCtyValue_eq_marked (S : Sched) (ms : List String) (ty : Ty) (p : Payload) (T : GoTy) (tv : GoVal)
+    (hc : T.base.isCval = false) (hk : kindOK ty p = true)
+    (hwf : ∀ etys cs, ty = .tuple etys → p = .seq cs → cs.length = etys.length) :
+    GoctyFnsTie.er (Generated.GoctyShapeFns.fromCtyValue (D18bTie.recFor S ty) (S 0) ⟨ty, pushMarks ms p⟩ T tv) =
+      GoctyFnsTie.er (fromCtyP S ms ty p T) :=
+  D18bTie.fromCtyValue_tie_marked S ms ty p T tv hc hk hwf
+
+/-- … and its three guards are the model's, for ANY recursive decoder, with the marks pushed down from the containers:
+a `cty.Value` pointee receives the value as it is (exactly, unknown / null / marked alike); null goes through the last
+pointer; an unknown value is refused -/
+theorem generated_fromCtyValue_guards (S : Sched) (rec : GoctyGo.Rec) (ord : List String → List String) (ms : List String) (ty : Ty)
+    (p : Payload) (T : GoTy) (tv : GoVal) (hm : p.isMarked = false) :
+    (T.base.isCval = true → Generated.GoctyShapeFns.fromCtyValue rec ord ⟨ty, pushMarks ms p⟩ T tv = fromCtyP S ms ty p T) ∧
+    (T.base.isCval = false → p = .null → nullViaPtr ty = true →
+      GoctyFnsTie.er (Generated.GoctyShapeFns.fromCtyValue rec ord ⟨ty, pushMarks ms p⟩ T tv) = GoctyFnsTie.er (fromCtyP S ms ty p T)) ∧
+    (T.base.isCval = false → (∃ r, p = .unk r) →
+      GoctyFnsTie.er (Generated.GoctyShapeFns.fromCtyValue rec ord ⟨ty, pushMarks ms p⟩ T tv) = GoctyFnsTie.er (fromCtyP S ms ty p T)) :=
+  D18bTie.fromCtyValue_tie_guards S rec ord ms ty p T tv hm
+
+/-- `errors_unknown` and `errors_null_nonnilable`, about the translated source and for ANY behaviour of the recursive call:
+in out.go an unknown value (marked or not) is refused before any decoder is chosen, and a null (of a type other than list,
+map, capsule) is refused by a non-pointer target and otherwise sets the last pointer to nil -/
+theorem errors_unknown_null_generated (rec : GoctyGo.Rec) (ord : List String → List String) (v : Value) (T : GoTy) (tv : GoVal)
+    (hc : T.base.isCval = false) :
+    (v.isKnown = false → GoctyFnsTie.er (Generated.GoctyShapeFns.fromCtyValue rec ord v T tv) = .err "") ∧
+    (v.isNull = true → nullViaPtr v.ty = true →
+      GoctyFnsTie.er (Generated.GoctyShapeFns.fromCtyValue rec ord v T tv) =
+        if T.depth = 0 then .err "" else .ok (wrapPtr (T.depth - 1) .nilPtr)) :=
+  ⟨fun hk => D18bTie.fromCtyValue_unknown rec ord v T tv hc hk, fun hn hv => D18bTie.fromCtyValue_null rec ord v T tv hc hn hv⟩
+
+/-- `array_length_rule`, about the translated source and for ANY behaviour of the recursive call: in out.go the
+`length != target.Len()` tests of `fromCtyList` and `fromCtySet` come before the element loops, and `fromCtyTuple` compares
+the field count first — a wrong length is refused before a single member is looked at -/
+theorem array_length_rule_generated (rec : GoctyGo.Rec) (ety : Ty) (etys : List Ty) (ids : List Int) (cs : List Payload) (p : Payload)
+    (n : Nat) (E : GoTy) (tags : List String) (tys : List GoTy) (tv : GoVal) :
+    (cs.length ≠ n → (∃ c, Generated.GoctyShapeFns.fromCtyList rec ⟨.list ety, .seq cs⟩ (.array n E) tv = .err c) ∧
+                     (∃ c, Generated.GoctyShapeFns.fromCtySet rec ⟨.set ety, .sset ids cs⟩ (.array n E) tv = .err c)) ∧
+    (tys.length ≠ etys.length → ∃ c, Generated.GoctyShapeFns.fromCtyTuple rec ⟨.tuple etys, p⟩ (.struct tags tys) tv = .err c) :=
+  ⟨fun hl => ⟨D18bTie.fromCtyList_array_len rec ety cs n E tv hl, D18bTie.fromCtySet_array_len rec ety ids cs n E tv hl⟩,
+   fun hl => D18bTie.fromCtyTuple_field_count rec etys p tags tys tv hl⟩
+
+/-- a marked list, set or map panics in the translated source as in the model (`marked_can_panic`), whatever its members -/
+theorem marked_container_panics_generated (rec : GoctyGo.Rec) (ms : List String) (ety : Ty) (cs : List Payload) (ks : List String)
+    (ids : List Int) (E : GoTy) (tv : GoVal) :
+    GoctyFnsTie.er (Generated.GoctyShapeFns.fromCtyList rec ⟨.list ety, .marked ms (.seq cs)⟩ (.slice E) tv) = .panic "" ∧
+    GoctyFnsTie.er (Generated.GoctyShapeFns.fromCtySet rec ⟨.set ety, .marked ms (.sset ids cs)⟩ (.slice E) tv) = .panic "" ∧
+    GoctyFnsTie.er (Generated.GoctyShapeFns.fromCtyMap rec ⟨.map ety, .marked ms (.smap ks cs)⟩ (.map E) tv) = .panic "" :=
+  D18bTie.marked_container_panics rec ms ety cs ks ids E tv
+
+-- the hypotheses are met by non-trivial instances; the statements evaluated
+example (S : Sched) : ∃ c, fromCtyS S ⟨.list .number, .seq []⟩ (.ptr (.array 2 (.int .w8 true))) = .err c :=
+  ((array_length_rule S .number [] [] (.ptr (.array 2 (.int .w8 true))) 2 (.int .w8 true) rfl).2.2 (by decide)).1
+example (S : Sched) : fromCtyS S ⟨.map .string, .smap ["a", "b"] [.null, .s "x"]⟩ (.map (.ptr .str)) =
+    .ok (.map ["a", "b"] [.nilPtr, .ptr (.str "x")]) := by rfl
+example : nullViaPtr .string = true ∧ (GoTy.str).base.isCval = false ∧ (GoTy.map (.ptr .str)).base = .map (.ptr .str) := ⟨rfl, rfl, rfl⟩
+example (S : Sched) : ∃ x, toCty id (.bigInt (2 ^ 200 + 1)) .number = .ok ⟨.number, .n x⟩ ∧ IsTheInt x (2 ^ 200 + 1) :=
+  let ⟨x, h1, _, h2, _⟩ := bigInt_tocty_exact S id (2 ^ 200 + 1); ⟨x, h1, h2⟩
+example (S : Sched) : Generated.GoctyShapeFns.fromCtyList (D18bTie.recS S) ⟨.list .number, .seq [.n (Num.ofInt 1), .n (Num.ofInt 2)]⟩
+    (.array 2 (.int .w8 true)) (zeroVal (.array 2 (.int .w8 true))) = .ok (.arr [.int 1, .int 2]) := by rfl
+example (S : Sched) : Generated.GoctyShapeFns.fromCtyList (D18bTie.recS S) ⟨.list .number, .seq []⟩
+    (.array 2 (.int .w8 true)) (zeroVal (.array 2 (.int .w8 true))) = .err "must be a list of length %d" := by rfl
+example (S : Sched) : Generated.GoctyShapeFns.fromCtyTuple (D18bTie.recS S) ⟨.tuple [.string, .number], .seq [.s "a", .n (Num.ofInt 7)]⟩
+    (.struct ["", ""] [.str, .int .w8 true]) (zeroVal (.struct ["", ""] [.str, .int .w8 true])) =
+    .ok (.struct ["", ""] [.str "a", .int 7]) := by rfl
+
+example (S : Sched) : Generated.GoctyShapeFns.fromCtyValue (D18bTie.recS S) (S 0)
+    ⟨.list .number, .seq [.n (Num.ofInt 1), .null]⟩ (.ptr (.slice (.ptr (.int .w8 true)))) .nilPtr =
+    .ok (.ptr (.slice [.ptr (.int 1), .nilPtr])) := by rfl
+example : kindOK (.list .number) (.seq [.n (Num.ofInt 1), .null]) = true ∧ (GoTy.ptr (.slice (.ptr (.int .w8 true)))).base.isCval = false :=
+  ⟨rfl, rfl⟩
+example (S : Sched) : Generated.GoctyShapeFns.fromCtyValue (D18bTie.recS S) (S 0) ⟨.string, .unk .unref⟩ (.ptr .str) .nilPtr =
+    .err "value must be known" := by rfl
+
+example (S : Sched) : GoctyFnsTie.er (Generated.GoctyShapeFns.fromCtyValue (D18bTie.recS S) (S 0)
+    ⟨.tuple [.string], pushMarks ["m"] (.seq [.s "a"])⟩ (.struct [""] [.str]) (zeroVal (.struct [""] [.str]))) = .panic "" := by rfl
+example : kindOK (.tuple [.string]) (.seq [.s "a"]) = true := rfl
 
 end C18
 end CtyModel
